@@ -16,6 +16,8 @@ LITS = {"NON_NEG_FLOAT", "NON_NEG_INTEGER", "STRING_LITERAL", "MINUS"}
 
 
 def tags_for(name):
+    if name == "STRING_LITERAL":      # salts and string operands: every property that quantifies over string contents
+        return ("C05", "C02", "C07", "C06", "C12", "C13", "C15")
     if name in LITS:
         return ("C05", "C02", "C07", "C06")
     if name in OPS:
@@ -118,7 +120,7 @@ def lexer_obls(T, ctx, tag=""):
     k = al.k
     ctx.notes.append("rxvc alphabet: %(classes)d classes from %(sets)d character sets; product interpreter %(python)s, Unicode %(unicode)s" % T.alpha_info)
     states = T.dump["states"]
-    allp = ("C02", "C05", "C06", "C07", "C08")
+    allp = ("C02", "C05", "C06", "C07", "C08", "C12", "C13", "C15")
     out.append(Obl("xcheck:lexer/character-set-semantics-vs-re", fn_main, "xcheck", "rxvc's reading of every character set agrees with the real `re` on class representatives + sampled code points",
                    status=DISCHARGED if not T.alpha_xcheck["mismatches"] else ERROR, backend="native-bounded", bounded=True,
                    detail=str(T.alpha_xcheck), props=allp, meta={"coverage": {"evaluations": T.alpha_xcheck["checked"]}}))
@@ -348,9 +350,11 @@ def bounded_lex(ctx, T):
     al = T.alpha
     # a pool of characters that exercises every interesting class
     want = ["a", "i", "n", "o", "t", "e", "l", "s", "f", "r", "d", "0", "7", ".", ">", "<", "=", "!", " ", "\n", "\t", "/", "*", '"', "'", "_", "(", ",", "-", "@", "\u00e9", "\u0663"]
-    core = ["i", "n", "o", "t", "e", "l", "s", "f", " ", "0", ".", ">", "=", "/", "*", '"', "\n", "a", "@", "\u00e9"]
+    core = ["i", "n", "o", "t", "e", "l", "s", "f", " ", "0", ".", ">", "=", "/", "*", '"', "\n", "a", "@", "\u00e9", "\\", "'", "_"]
     texts = ["order_id", "index", "not_active", "android", "x >= 1", "x <= 1", "not  in", "else  if", "elseif", "/* a */ b /* c */", "/* a\n*/*/", "'a' //x\n'b'", "1and", "1.5.3", ".5", "a=<1",
-             "\"a//b\"", "'/*'", "/* ' */ 'x'", "x/**/y", "/***/", "/*/", "in\u00e9"]
+             "\"a//b\"", "'/*'", "/* ' */ 'x'", "x/**/y", "/***/", "/*/", "in\u00e9",
+             '"a\\"', "'\\'", '"C:\\exp\\" x', '"\\" "b"', "\"A' weighted 1, 'B\"", "'\"y\"'", "// c\x0c x", "// c\u2028 x", "//", "x //", "x // c", '"\U0001F680"', "not_in", "in_stock", "or_",
+             "/**/ x", "/*****/ x", "/* * */", "/* a */ // b\n c"]
 
     def run():
         r = native.one({"cmd": "lex_diff", "pool": core if ctx.tier == "quick" else want, "maxlen": 3 if ctx.tier == "quick" else 3, "texts": texts}, timeout=3000)
@@ -361,4 +365,4 @@ def bounded_lex(ctx, T):
     extra = [bounded_obl("bounded:lexer/trivia-variants-same-AST", LEXFN + "ExperimentLexer", "inserting whitespace / comments at token boundaries leaves parse_source's AST unchanged",
                          ("C08",), run_trivia)]
     return extra + [bounded_obl("bounded:lexer/tokenize-vs-Lex_ref", LEXFN + "ExperimentLexer", "real tokenize == documented scanner (token types, values, rejection) on all short strings",
-                        ("C02", "C05", "C06", "C07", "C08"), run)]
+                        ("C02", "C05", "C06", "C07", "C08", "C12", "C13", "C15"), run)]
